@@ -435,10 +435,26 @@ func (s *sut) getSelectedVersions() {
 }
 
 // purge runs Purge(keep) and checks the statement's disk invariants.
-func (s *sut) purge(keep int) {
+func (s *sut) purge(keep int) { s.purgeVia(keep, false) }
+
+// purgeVia: through the registry, or (direct) by calling the exported Purge of every resource object itself, as the
+// registry does - the guarantees are those of the resource.
+func (s *sut) purgeVia(keep int, direct bool) {
 	before := s.diskFiles()
-	s.logf("Purge(%d)", keep)
-	s.call("Purge", func() { s.reg.Purge(keep) })
+	if direct {
+		s.logf("Resource.Purge(%d) on every resource", keep)
+		s.call("Resource.Purge", func() {
+			for id := range s.m.resources {
+				if res := updater.VerifResource(s.reg, id); res != nil {
+					res.Purge(keep)
+				}
+			}
+		})
+		s.class("purge_called_on_the_resources_directly")
+	} else {
+		s.logf("Purge(%d)", keep)
+		s.call("Purge", func() { s.reg.Purge(keep) })
+	}
 	after := s.diskFiles()
 	exp := s.export("Purge")
 
@@ -725,7 +741,7 @@ func TestPropRegistryHistory(t *testing.T) {
 				}
 				s.getFile(id)
 			case "purge":
-				s.purge(rapid.SampledFrom([]int{2, 3, 0, 1, -1, 4, 5}).Draw(t, "keep"))
+				s.purgeVia(rapid.SampledFrom([]int{2, 3, 0, 1, -1, 4, 5}).Draw(t, "keep"), rapid.IntRange(0, 2).Draw(t, "purge_direct") == 0)
 			case "getSelected":
 				ok := true
 				for _, res := range s.m.resources {
